@@ -29,6 +29,9 @@ SPEC = {
         "of f64, f32 through f64) is validated on the implementation only (`rt`, `rt32`), not proved",
         "numerals: the round trip `parseU32 (natTok v) = some v` is PROVED (lemma parseU32_natTok) from core's "
         "Nat.ofDigitChars_ten_toDigits; it needs v < 2^32, hence the hypothesis n_darts <= 2^32 (u32 dart ids)",
+        "the null dart is not flagged as removed (hypothesis `m.unused 0 = false` of C09_roundtrip, added with the loader fix "
+        "7170072): `remove_free_dart(0)` is accepted by the public API, `serialize` then prints `0` in [UNUSED] and the validating "
+        "loader rejects that id (`new 2 1 0; rm 0; rt` -> `err InconsistentData 8`); the streams never flag the null dart",
         "the version token (CARGO_PKG_VERSION) is a parameter of the theorem, assumed free of `#` and not starting with `[`",
         "two-sided streams only use exactly representable dyadic coordinates (|p| < 2^53, denominators up to 2^59); "
         "-0.0, subnormals, huge values, infinities and f32 maps are exercised on the implementation only (stream `special floats`) "
